@@ -22,16 +22,27 @@ pub enum Req {
     Evict,
 }
 
-fn base_batch() -> Batch {
-    Batch::one(
-        TableBatch::new("t", 4)
-            .col("id", vec![ri(1), ri(2), ri(3), ri(4)])
-            .col("w", vec![ri(1 << 40), ri(3), ri(i64::MAX - 1), ri(-5)])
-            .col("s", vec![rs("a"), rs("b"), rs("a"), rs("c")])
-            .col("k", vec![ri(1), ri(2), ri(1), ri(2)])
-            .col_repr("nv", vec![ri(1), RVal::Null, ri(3), RVal::Null], Repr::SparseI64)
-            .col("hx", vec![rs("00ff10aa"), rs("deadbeef"), rs("0a0b0c0d"), rs("11223344")]),
-    )
+/// The table is set up as three partitions (2 + 1 + 1 rows) whose `big` sums are 4e18 each: a SUM
+/// over it overflows only when partial results of different merge levels are combined at the end.
+fn base_batches() -> Vec<Batch> {
+    let part = |ids: &[i64], big: &[i64], w: &[i64], s: &[&str], k: &[i64], nv: Vec<RVal>, hx: &[&str]| {
+        Batch::one(
+            TableBatch::new("t", ids.len())
+                .col("id", ids.iter().map(|x| ri(*x)).collect())
+                .col("big", big.iter().map(|x| ri(*x)).collect())
+                .col("w", w.iter().map(|x| ri(*x)).collect())
+                .col("s", s.iter().map(|x| rs(x)).collect())
+                .col("k", k.iter().map(|x| ri(*x)).collect())
+                .col_repr("nv", nv, Repr::Mixed)
+                .col("hx", hx.iter().map(|x| rs(x)).collect()),
+        )
+    };
+    let e18 = 1_000_000_000_000_000_000i64;
+    vec![
+        part(&[1, 2], &[e18, 3 * e18], &[1 << 40, 3], &["a", "b"], &[1, 2], vec![ri(1), RVal::Null], &["00ff10aa", "deadbeef"]),
+        part(&[3], &[4 * e18], &[i64::MAX - 1], &["a"], &[1], vec![ri(3)], &["0a0b0c0d"]),
+        part(&[4], &[4 * e18], &[-5], &["c"], &[2], vec![RVal::Null], &["11223344"]),
+    ]
 }
 
 fn ingest_batch(kind: u8, seq: usize) -> Batch {
@@ -70,6 +81,8 @@ pub fn menu() -> Vec<Req> {
         q("SELECT s + 1 FROM t"),
         q("SELECT w * w FROM t"),
         q("SELECT SUM(w) + SUM(w) FROM t"),
+        q("SELECT SUM(big) FROM t"),
+        q("SELECT k, SUM(big) FROM t"),
         q("SELECT id FROM t GROUP BY id"),
         q("SELECT id FROM nosuchtable"),
         q("SELECT id FROM t ORDER BY id LIMIT 2 OFFSET 99"),
@@ -220,20 +233,35 @@ pub fn run_sequence(c: &SeqCase, tr: &mut u64) -> Option<(String, String, usize)
         return Some(("open".into(), r.describe(), 0));
     }
     let mut rows = 0usize;
-    let r = db.ingest_batch(&base_batch(), IngestPath::Wire);
-    if !matches!(r, Outcome::Ok(())) {
-        db.destroy();
-        return Some(("setup-ingest".into(), r.describe(), 0));
+    for b in base_batches() {
+        let r = db.ingest_batch(&b, IngestPath::Wire);
+        if !matches!(r, Outcome::Ok(())) {
+            db.destroy();
+            return Some(("setup-ingest:hang-or-failure".into(), r.describe(), 0));
+        }
+        rows += b.tables[0].rows;
+        // one partition per batch (in memory-only databases force_flush batches the buffer as well)
+        let r = db.flush();
+        if !matches!(r, Outcome::Ok(())) {
+            db.destroy();
+            return Some(("setup-flush:hang-or-failure".into(), r.describe(), 0));
+        }
     }
-    rows += 4;
-    if c.opts.on_disk {
-        let _ = db.flush();
+    if std::env::var("LVMC_TRACE").is_ok() {
+        let st = db.call(|db, rt| rt.block_on(db.table_stats()).map(|s| s.iter().map(|t| format!("{} rows={} batches={} buffer={}", t.name, t.rows, t.batches, t.buffer_length)).collect::<Vec<_>>()).map_err(|e| e.to_string()));
+        if let Outcome::Ok(st) = st {
+            eprintln!("[trace] after setup: {:?}", st);
+        }
     }
     let mut result = None;
     for (i, r) in c.reqs.iter().enumerate() {
         *tr += 1;
         match issue(&mut db, r, i, &mut rows) {
-            Ok(_) => {}
+            Ok(res) => {
+                if std::env::var("LVMC_TRACE").is_ok() {
+                    eprintln!("[trace] {} -> {}", req_name(r), res);
+                }
+            }
             Err((sig, what)) => {
                 result = Some((format!("request:{}", sig), format!("request {} of {:?}: {}", i, c.reqs.iter().map(req_name).collect::<Vec<_>>(), what), i));
                 break;
@@ -253,13 +281,33 @@ pub fn run_sequence(c: &SeqCase, tr: &mut u64) -> Option<(String, String, usize)
     result
 }
 
+pub fn adhoc(desc: &str) -> i32 {
+    let mut parts = desc.split(';');
+    let ci: usize = parts.next().unwrap().trim().parse().unwrap();
+    let reqs: Vec<Req> = parts.map(|p| Req::Query(p.trim().to_string())).collect();
+    let case = SeqCase { opts: configs()[ci].clone(), reqs };
+    let mut tr = 0;
+    match run_sequence(&case, &mut tr) {
+        None => {
+            println!("ok ({} calls)", tr);
+            0
+        }
+        Some((sig, what, at)) => {
+            println!("VIOLATION sig={} at={}\n{}", sig, at, what);
+            1
+        }
+    }
+}
+
 fn configs() -> Vec<DbOpts> {
     let base = DbOpts::default();
     vec![
-        DbOpts { on_disk: false, threads: 1, ..base.clone() },
+        DbOpts { on_disk: false, threads: 1, partition_combine_factor: 1000, ..base.clone() },
         DbOpts { on_disk: false, threads: 2, ..base.clone() },
         DbOpts { on_disk: true, threads: 1, partition_combine_factor: 0, ..base.clone() },
         DbOpts { on_disk: true, threads: 2, partition_combine_factor: 4, ..base.clone() },
+        // no compaction: the table keeps its three partitions
+        DbOpts { on_disk: true, threads: 1, partition_combine_factor: 1000, ..base.clone() },
     ]
 }
 
@@ -280,7 +328,7 @@ impl Engine for C11 {
         let depth = if tier == Tier::Quick { 2 } else { 3 };
         Describe {
             level: "model_checking",
-            rule: format!("(a) every sequence of 1..{} requests over a menu of 23 (valid query, syntax error, type error, overflow, overflow in the final pass, unsupported construct, unknown table, OFFSET beyond the table, invalid regex, fractional LIMIT, two aggregates that make the engine panic internally, ORDER BY constant, empty statement, SELECT *, ingestion of rows / of a zero-row table part / of a mixed column with NULL / of a new table and column, force_flush, table_stats, mem_tree, evict_cache) on 4 database configurations (1 or 2 workers x memory-only or on disk with compaction) holding a table that exercises offset, dictionary, hex-packed and nullable encodings; every call must return a value or an error within the deadline, and after EVERY request the canary set must succeed: COUNT(1) equals the acknowledged row count, an ingestion is acknowledged and visible, force_flush returns, table_stats answers; (b) six failing queries placed at every sync point of a concurrent force_flush with compaction (all schedules with at most 2 context switches): flush and query must complete, no database thread may panic, afterwards all rows are there. Non-trivial: sequences containing a failing request; distinct by (configuration, sequence) / sync-point trace.", depth),
+            rule: format!("(a) every sequence of 1..{} requests over a menu of 25 (valid query, syntax error, type error, overflow, overflow in the final pass, overflow that only appears when the partial sums of three partitions are merged, unsupported construct, unknown table, OFFSET beyond the table, invalid regex, fractional LIMIT, two aggregates that make the engine panic internally, ORDER BY constant, empty statement, SELECT *, ingestion of rows / of a zero-row table part / of a mixed column with NULL / of a new table and column, force_flush, table_stats, mem_tree, evict_cache) on 5 database configurations (1 or 2 workers x memory-only or on disk, with compaction after every flush / occasional / never) holding a three-partition table that exercises offset, dictionary, hex-packed and nullable encodings; every call must return a value or an error within the deadline, and after EVERY request the canary set must succeed: COUNT(1) equals the acknowledged row count, an ingestion is acknowledged and visible, force_flush returns, table_stats answers; (b) six failing queries placed at every sync point of a concurrent force_flush with compaction (all schedules with at most 2 context switches): flush and query must complete, no database thread may panic, afterwards all rows are there. Non-trivial: sequences containing a failing request; distinct by (configuration, sequence) / sync-point trace.", depth),
             assumptions: vec!["deadline 3 s per call (12 s on re-run and replay)".into(), "a panic inside a worker that is caught and reported as an error value is not a violation by itself; the canaries decide whether the database was damaged".into()],
             bounds: json!({"menu": menu().iter().map(req_name).collect::<Vec<_>>(), "depth": depth, "configurations": configs().len()}),
             states_meaning: "distinct (configuration, request sequence) cases and schedules executed",
